@@ -267,7 +267,10 @@ def getitem(I, a, idx):
         return rec(d[I.norm_index(i, len(d))], rest)
     r = rec(a.data, idx)
     if isinstance(r, list):
-        return mk(r, a.dtype)
+        out = mk(r, a.dtype)
+        if len(idx) == 1 and isinstance(idx[0], (ListV, tuple, NdArr)) and not r:
+            out.tail = (0,) + tuple(a.tail[1:])      # fancy indexing with an empty index list keeps the trailing shape
+        return out
     return r
 
 
